@@ -100,6 +100,24 @@ func (f *File) Prefix() string {
 	return strings.TrimSuffix(b, path.Ext(b))
 }
 
+// GoPackage is the Go package path thriftgo derives for the file: the go
+// namespace, else the `*` namespace, else the lower-cased base name.
+func (f *File) GoPackage() string {
+	ns, found := "", false
+	for _, n := range f.Namespaces {
+		if n.Lang == "go" {
+			return n.Name
+		}
+		if n.Lang == "*" {
+			ns, found = n.Name, true
+		}
+	}
+	if found {
+		return ns
+	}
+	return strings.ToLower(f.Prefix())
+}
+
 // IncludeIndex returns the position of g among f's includes, or -1.
 func (f *File) IncludeIndex(g *File) int {
 	for i, x := range f.Includes {
